@@ -1,7 +1,7 @@
 CONSTANTS
   Mode = "tcp"
   NStart = 2
-  LsnOf <- Same
+  NLsn = 1
   NShut = 2
   NConns = 1
   MaxReq = 1
